@@ -103,6 +103,10 @@ class Seq(object):
     self.fake = fakereactor.FakeReactor()
     self.fake.transport_hw = getattr(ns, 'transport_hw', None)
     self.fake.capture_call_errors = True       # reported by report_call_errors()
+    # every other sequence with the connection-quality reset switched on lets carbon's own closes take effect later
+    Seq._instances = getattr(Seq, '_instances', 0) + 1
+    self.lazy_close = bool(ns.settings.USE_RATIO_RESET) and Seq._instances % 2 == 0
+    self.close_countdown = {}
     client.reactor = self.fake
     client.time = lambda: 1.0e9 + self.fake.seconds()      # lastResetTime / MIN_RESET_INTERVAL on the virtual clock
     instrumentation.stats.clear()
@@ -313,6 +317,17 @@ class Seq(object):
     for c in list(self.fake.connectors):
       if c.state == 'connected' and c.transport is not None and c.transport.disconnecting:
         f = c.factory
+        if self.lazy_close and not self.stopped:
+          # the other legitimate ordering: a close that carbon asked for takes effect a few events later (a slow peer:
+          # the transport first has to get rid of what it buffered); until then the factory still sees its protocol
+          left = self.close_countdown.get(id(c))
+          if left is None:
+            left = self.close_countdown[id(c)] = 3
+            self.counters['closes_taking_effect_later'] = self.counters.get('closes_taking_effect_later', 0) + 1
+          if left > 0:
+            self.close_countdown[id(c)] = left - 1
+            continue
+          self.close_countdown.pop(id(c), None)
         # a close requested by the connection quality monitor (USE_RATIO_RESET) is not the orderly stop's close
         rkey = 'destinations.%s.slowConnectionReset' % f.destinationName
         nres = self.stat(rkey)
